@@ -1477,6 +1477,37 @@ int32 matrixUpdateSession(ssl_t *ssl)
     NOTE: If this list can get very large the faster DLList API should be
     used instead of this single linked list.
  */
+/*
+    The session ticket key list of a key set is shared by every session
+    using that key set.  Code outside this file (TLS 1.3 tickets) that
+    walks the list or uses a key from it holds the same lock as
+    matrixSslLoadSessionTicketKeys / matrixSslDeleteSessionTicketKey.
+ */
+void matrixSslSessTicketKeysLock(void)
+{
+    psLockMutex(&g_sessTicketLock);
+}
+
+void matrixSslSessTicketKeysUnlock(void)
+{
+    psUnlockMutex(&g_sessTicketLock);
+}
+
+/* Does the key set have any session ticket keys loaded right now? */
+int32 matrixSslHaveSessTicketKeys(const sslKeys_t *keys)
+{
+    int32 have;
+
+    if (keys == NULL)
+    {
+        return 0;
+    }
+    psLockMutex(&g_sessTicketLock);
+    have = (keys->sessTickets != NULL);
+    psUnlockMutex(&g_sessTicketLock);
+    return have;
+}
+
 int32 matrixSslDeleteSessionTicketKey(sslKeys_t *keys, unsigned char name[16])
 {
     psSessionTicketKeys_t *lkey, *prev;
